@@ -438,6 +438,16 @@ def rule_ef(ctx, R, sector, gauss_site, scan_site):
                 if xbi in sector.reachable_from(a_, avoid_edges=avoid):
                     guard = False
                     det = "xi read reachable from the removal at bb%d without an emptiness test of the remaining graph" % a_
+        if not guard and len(inner) == 1:
+            # alternative idiom: the iteration is entered only with >= 2 edges (loop condition !is_empty and has_one_edge false edge)
+            acd = cfg.transitive_control_deps(sector, acyclic=True)
+            for (sb, tgt) in acd[xbi]:
+                c = v.classify_bool(sector.blocks[sb]["term"]["discr"])
+                if c and c[0] == "call" and c[1].get("callee", {}).get("name") == "has_one_edge":
+                    te_, fe_ = bool_edges(sector, sb)
+                    if tgt == fe_:
+                        guard = True
+                        det = "guarded by has_one_edge(graph) == false before the removal (>= 2 edges, so one remains)"
         ctx.ob("C14-f", "xi is read only when the graph is non-empty after the removal, once per iteration", guard and len(inner) == 1, sector.path,
                "xi-read-guard", where=pat.where(xt), detail="%s; enclosing loops: %d" % (det, len(inner)))
     # Box-Muller closure(s): two reads on every path
